@@ -27,6 +27,8 @@ GROUPS = {
     "C10": [("regex", ["regex.match", "regex.search", "regex.no_panic"]), ("e2e_fn", ["e2e_fn.members", "e2e_fn.multiplicity", "e2e_fn.no_panic"])],
     "C11": [("arith", ["process_index.select", "process_slice.select", "process_index.no_panic", "process_slice.no_panic"]),
             ("text_arith", ["text_arith.members", "text_arith.order", "text_arith.no_panic"])],
+    "C12": [("purity", ["purity.repeat", "purity.history", "purity.parsed_once", "purity.threads"]),
+            ("text_plain", ["text_plain.api_agree"]), ("text_union", ["text_union.api_agree"]), ("text_filter", ["text_filter.api_agree"]), ("text_arith", ["text_arith.api_agree"])],
     "C15": [("e2e", ["e2e.view_independent", "e2e.second_impl.members", "e2e.second_impl.multiplicity", "e2e.second_impl.order"]), ("text_filter", ["text_filter.api_agree", "text_filter.api_view_independent"]),
             ("text_plain", ["text_plain.api_agree", "text_plain.api_view_independent"]), ("text_arith", ["text_arith.api_view_independent"]), ("text_union", ["text_union.api_view_independent"]),
             ("cmp_struct", ["eq.structural", "lt.order"])],
